@@ -33,6 +33,8 @@ impl<'a> StreamingScan<'a> {
         passive_buffers: &Arc<PassiveBufferSet>,
         inflight_segments: Option<InflightSegments>,
     ) -> Result<Self, QueryExecutionError> {
+        #[cfg(sneldb_verif)]
+        crate::verif_hooks::vp("rd_scan_start");
         let mut plan = QueryPlan::new(
             command.clone(),
             registry,
@@ -43,6 +45,9 @@ impl<'a> StreamingScan<'a> {
         .await
         .ok_or(QueryExecutionError::Aborted)?;
 
+        #[cfg(sneldb_verif)]
+        crate::verif_hooks::vp("rd_plan_built");
+
         // Apply metadata if provided
         if let Some(meta) = metadata {
             for (k, v) in meta {
@@ -52,6 +57,8 @@ impl<'a> StreamingScan<'a> {
 
         let context =
             StreamingContext::new(Arc::new(plan), passive_buffers, STREAMING_BATCH_SIZE).await?;
+        #[cfg(sneldb_verif)]
+        crate::verif_hooks::vp("rd_ctx_built");
 
         Ok(Self { memtable, context })
     }
